@@ -309,6 +309,8 @@ _W15_GUARDS = {
     "C09": {"hand-made-jose-headers": 100},
     "C14": {"assertions-with-rfc3339-time-claims": 100},
     "C16": {"device-requests-with-a-scope-of-the-application's-own": 500},
+    "C02": {"relying-parties-with-algorithms-from-discovery": 500},
+    "C17": {"logins-with-a-state-longer-than-a-kilobyte": 1500},
 }
 for _gs in (_W9_GUARDS, _W10_GUARDS, _W11_GUARDS, _W12_GUARDS, _W13_GUARDS, _W14_GUARDS, _W15_GUARDS):
     for _p, _g in _gs.items():
@@ -348,6 +350,8 @@ _RULE_ADDENDA["C09"] += " One LegacyServer world in three behind the application
 _RULE_ADDENDA["C15"] += " Storages that leave requested_token_type empty: an issued token must declare its type and the type must describe it."
 _RULE_ADDENDA["C19"] += " Verifiers over the whole unreserved alphabet."
 _RULE_ADDENDA["C01"] += " Time claims of thirteen digits (a legal far-away expiry; an iat that a provider writing milliseconds would send)."
+_RULE_ADDENDA["C02"] += " Relying parties that take the allowed algorithms from discovery (WithSigningAlgsFromDiscovery) against documents advertising the algorithm in use, symmetric ones only, none, or another asymmetric one."
+_RULE_ADDENDA["C17"] += " States of one to two kilobytes in half of the worlds."
 _RULE_ADDENDA["C05"] += " Clients registered for a secret of which the storage also holds a public key, presenting a faultless assertion (three known findings at introspection / revocation, see known_findings.txt)."
 _RULE_ADDENDA["C06"] += " Signing keys published without a use member (one world in three)."
 _RULE_ADDENDA["C09"] += " Hand-made JOSE headers (members of the wrong JSON type, unknown critical members, embedded keys) over valid claims at every endpoint that takes a token."
